@@ -146,6 +146,23 @@ CHECKS.update({
     },
 })
 
+CHECKS.update({
+    "C04": {
+        "engine": "SHAPE", "category": "exploration",
+        "technique": "bounded-exhaustive enumeration of reactions with complete helicity sets x alignment; metamorphic oracle over the cube group plus an Euler lattice, on the polarisation basis of the coefficients",
+        "text": "kinematic variables are computed from rotated four-momenta by the library's own generated code and fed into the intensity; invariance is required for every single topology and for multi-topology reactions with a spinless final state or a selected alignment; the polarisation basis makes the verdict hold for all coefficient values",
+        "note": "4 lattice events x 41 rotations; inside the known region of the angle-convention finding invariance under pure z-rotations is still enforced",
+        "design": "3/C04",
+    },
+    "C05": {
+        "engine": "SHAPE", "category": "exploration",
+        "technique": "bounded-exhaustive enumeration of single-topology reactions x mass variants x five alignment choices; differential oracle against the unaligned model on the polarisation basis; spin-range helper enumerated for s = 0..5",
+        "text": "for every single-topology reaction with complete helicity sets the axis-angle and the three DPD models must reproduce the unaligned intensity at every lattice event for all coefficient values, formulation must not raise, rotation-sum pools of massive particles must be -s..s",
+        "note": "quick: three-body with bounded rotation-sum size; four-body and spins up to 5/2 in thorough",
+        "design": "3/C05",
+    },
+})
+
 NOT_YET = "check not implemented yet at this commit (planned, see DESIGN.md section 7)"
 
 
